@@ -69,7 +69,12 @@ META = {
                    'no task on a cycle of that graph has been started; C09_cycle_task_never_reported (such a task is never '
                    'reported at all); C09_cycle_exit3 (cyclic closure, run not cut short, no internal error => cyclic error '
                    'and exit code 3); C09_report_after_dependencies (the order invariant behind it: the terminal report of a '
-                   'task is younger than the terminal report of every closure-graph successor).  Hypothesis BoundedCalc: every '
+                   'task is younger than the terminal report of every closure-graph successor).  The closure graph (edgesAt) counts '
+                   'what executed / up-to-date calc_deps delivered AND what calc_deps delivered that were started and then '
+                   'failed (task.values is read whatever the run_status): C09_failed_delivery_cycle_diagnosed / '
+                   'C09_cycle_only_through_failed_delivery -- a cycle that exists only through a failed delivery ends the '
+                   '--continue run with the cyclic error and exit 3, no task on it started or reported (order invariant InvTF '
+                   'along failed deliveries, on top of the C08 delivery-completeness invariant).  Hypothesis BoundedCalc: every '
                    'calc_dep name is a task index < nTasks, i.e. the monitor has enough fixed-point fuel -- needed: '
                    'C09_cycle_diagnosed_fuel_counterexample.  C09_terminates_serial / _parallel / C09_terminates (FULL, all '
                    'three runners): on a finite task table (FiniteTable: every name mentioned is an index < N; needed, the '
@@ -98,7 +103,10 @@ META = {
              'selection that raises while the workers are started; (3) sampled graphs of 3-9 tasks from runlib.gen_case '
              '(all edge kinds, oracle, flags, selections) with injected cycles (ring of 1-3 tasks, edge kind per ring '
              'edge in task_dep/setup/calc_dep/file_dep, optionally a parent depending on several ring members, optionally '
-             'closed by a calc result), mutually / back-referencing calc results, big-output tasks in process mode.  non-trivial = has a dependency edge; distinct = rendered case + schedule'),
+             'closed by a calc result), mutually / back-referencing calc results, big-output tasks in process mode; (4) family '
+             'fail-delivery-cycle: a calc task whose first action returns task_dep / calc_dep values closing a cycle (self, ring, '
+             'delivered calc_dep, via a good calc task, ring through setup, common parent) and whose second action fails, '
+             'serial / thread / process, with and without --continue.  non-trivial = has a dependency edge; distinct = rendered case + schedule'),
     'assumptions': ['a hang of the OS / of a child that dies without a message is outside the model (DESIGN §8)',
                     'process-mode runs are sampled (real OS scheduling); a worker process still alive 1.5 s after '
                     'DoitMain.run returned counts as "the CLI would not terminate"',
@@ -480,7 +488,8 @@ def edges_at(model, fin, t):
 
 def closure_graph(case, trace, fail=True):
     """closure graph of the run; fail=True: with what FAILED-after-start calc tasks delivered (doit hands on task.values
-    whatever the run_status), fail=False: the graph of the Lean monitor `edgesAt` (executed / up-to-date deliveries)"""
+    whatever the run_status) = the graph of the Lean monitor `edgesAt` since wave 5; fail=False: executed / up-to-date
+    deliveries only (`edgesAtGood` / `cycleTasksGood`, the driver's `cycleGood`)"""
     model = case.get('model') or c09_expand(case)
     fin = _finished_f(trace) if fail else _finished(trace)
     clo, todo = [], [s for s in model['sel'] if 0 <= s < model['n']]
@@ -683,7 +692,7 @@ def inject_cycle(rng, case):
     kinds = []
     for i in range(k):
         a, b = ring[i], ring[(i + 1) % k]
-        kind = rng.choice(EDGE_KINDS) if k > 1 else rng.choice(('task_dep', 'setup', 'calc_dep'))
+        kind = rng.choice(EDGE_KINDS) if k > 1 else rng.choice(('task_dep', 'setup', 'calc_dep', 'file'))
         if i == k - 1 and k > 1 and rng.random() < 0.15:
             # closed dynamically: a calc_dep of `a` delivers `b` as task_dep
             others = [t for t in plain if t not in ring and t['calc_res'] is None and not t['calc_dep']
@@ -883,8 +892,8 @@ def scale_cases(tier, rng):
     generator per node: no recursion may build up), wide fan-in / fan-out under 2..8 workers, long cycles (50+) through
     task_dep / setup / calc_dep / file_dep / group edges, also at the end of a long chain or under a common parent, and
     layered random DAGs.  Too large for the Lean driver (acceptor and monitor are polynomial of degree 3-4): these cases
-    run under the Python transcription of the monitor plus an outcome oracle, and are counted
-    (`scale:python-monitor-only`)."""
+    run under an outcome oracle instead of the acceptor; up to LEAN_MON_MAX_N tasks the Lean monitor judges them
+    (`scale:lean-monitor(acceptor-not-asked)`), beyond that the Python transcription alone (`scale:python-monitor-only`)."""
     quick = tier == 'quick'
     out = []
 
@@ -959,7 +968,9 @@ def scale_cases(tier, rng):
     return out
 
 
-LEAN_MAX_N = 30        # beyond this the Lean driver is not asked (its acceptor / monitor take minutes at 100 tasks)
+LEAN_MAX_N = 30        # beyond this the Lean ACCEPTOR (`{"model":"run","op":"accept"}`) is not asked (minutes at 100 tasks)
+LEAN_MON_MAX_N = 400   # the Lean C09 MONITOR judges up to this many tasks since wave 5 (tabulated edges + work-list cycle
+                       # search, `cycleTasksFast = cycleTasks`: 0.1 s at 100 tasks, 0.5 s at 300, 20 s at 1500)
 
 
 def scale_oracle(case, obs):
@@ -1043,6 +1054,79 @@ def structured_cases():
                 ts[0]['calc_res']['task_dep'] = ['d']
                 ts[1]['calc_res']['file_dep'] = []
             out.append(named(base_case(ts, ['a'], runner, k), 'calc-backref'))
+    # a cycle that exists ONLY through what a calc task delivered before it FAILED (two actions: the first returns the
+    # dependency values, the second fails; `_process_calc_dep_results` reads task.values whatever the run_status).
+    # With --continue the receiver walks into the cycle (exit 3, Cyclic diagnostic); without, the failure stops the run.
+    for runner, k in (('serial', 0), ('thread', 2), ('thread', 3), ('process', 2)):
+        for shape in ('self', 'ring', 'delivered-calc_dep', 'via-good-calc', 'ring-setup', 'parent'):
+            for cont in (True, False):
+                for outcome, how in (('failed', 'return'), ('error', 'raise')):
+                    if runner == 'process' and (shape not in ('self', 'ring', 'via-good-calc') or how == 'raise'):
+                        continue
+                    if runner == 'thread' and k == 3 and shape not in ('ring', 'parent'):
+                        continue
+                    ts = [_task(x) for x in ('c', 'a', 'b', 'c2', 'p')]
+                    tc, ta, tb, tc2, tp = ts
+                    ta['calc_dep'] = ['c']
+                    tc.update(calc_first=True, outcome=outcome, how=how)
+                    if shape == 'self':
+                        tc['calc_res'] = {'task_dep': ['a'], 'file_dep': [], 'calc_dep': []}
+                    elif shape == 'ring':
+                        tc['calc_res'] = {'task_dep': ['b'], 'file_dep': [], 'calc_dep': []}
+                        tb['task_dep'] = ['a']
+                    elif shape == 'delivered-calc_dep':
+                        tc['calc_res'] = {'task_dep': [], 'file_dep': [], 'calc_dep': ['b']}
+                        tb['task_dep'] = ['a']
+                    elif shape == 'via-good-calc':
+                        tc['calc_res'] = {'task_dep': [], 'file_dep': [], 'calc_dep': ['c2']}
+                        tc2['calc_res'] = {'task_dep': ['a'], 'file_dep': [], 'calc_dep': []}
+                    elif shape == 'ring-setup':
+                        tc['calc_res'] = {'task_dep': ['b'], 'file_dep': [], 'calc_dep': []}
+                        tb['setup'] = ['a']
+                    else:
+                        # the ring b <-> c2 is first reached from `a` through two delivered names (common parent)
+                        tc['calc_res'] = {'task_dep': ['b', 'c2'], 'file_dep': [], 'calc_dep': []}
+                        tb['task_dep'] = ['c2']
+                        tc2['task_dep'] = ['b']
+                    sel = ['p', 'a'] if shape == 'parent' else ['a']
+                    c = named(base_case(ts, sel, runner, k, cont=cont), 'fail-delivery-cycle')
+                    c['fdc'] = shape
+                    out.append(c)
+    # the shortest cycle through an implicit file dependency: a task that lists one of its OWN targets as file_dep
+    # (TaskControl.add_implicit_task_dep turns it into task_dep: [itself]) -- written in the dodo file, below a parent
+    # (task_dep / setup / calc_dep), next to other producers, or delivered at run time as file_dep by a calc_dep
+    # (`_process_calc_dep_results` calls add_implicit_task_dep for the delivered files)
+    for runner, k in (('serial', 0), ('thread', 2), ('process', 2)):
+        for shape in ('direct', 'below-task_dep', 'below-setup', 'below-calc_dep', 'calc-delivered',
+                      'calc-delivered-below-parent', 'with-other-producer', 'second-target'):
+            for sel_all in (False, True):
+                if runner == 'process' and (sel_all or shape not in ('direct', 'below-task_dep', 'calc-delivered')):
+                    continue
+                ts = [_task(x) for x in ('free', 'stamp', 'p', 'c', 'other')]
+                tfree, tstamp, tp, tc, tother = ts
+                own = 'f_stamp.out'
+                tstamp['targets'] = [own]
+                sel = ['stamp']
+                if shape in ('calc-delivered', 'calc-delivered-below-parent'):
+                    tstamp['calc_dep'] = ['c']
+                    tc['calc_res'] = {'task_dep': [], 'file_dep': [own], 'calc_dep': []}
+                    if shape == 'calc-delivered-below-parent':
+                        tp['task_dep'] = ['free', 'stamp']
+                        sel = ['p']
+                else:
+                    tstamp['file_dep'] = [own]
+                if shape.startswith('below-'):
+                    tp[shape[len('below-'):]] = ['stamp']
+                    sel = ['p']
+                if shape == 'with-other-producer':
+                    # a second, honest implicit dependency next to the own target
+                    tother['targets'] = ['f_other.out']
+                    tstamp['file_dep'] = ['f_other.out', own]
+                if shape == 'second-target':
+                    tstamp['targets'] = ['f_stamp_a.out', own]
+                c = named(base_case(ts, None if sel_all else sel, runner, k), 'own-target-filedep')
+                c['otf'] = shape
+                out.append(c)
     # a cyclic error raised in the main process while a worker process holds a result bigger than the pipe buffer
     for k in (2, 3):
         for sel, cyc in ((['big1', 'a'], 'self'), (['big1', 'big2', 'a'], 'self'), (['big1', 'a'], 'ring'),
@@ -1257,22 +1341,27 @@ def judge(case, obs, a_run, a_c09, st, shrink_left):
         st.count('family:selection-raises(model-not-asked)')
     elif has_delayed(case):
         st.count('delayed-creators:python-monitor-only(model-not-asked)')
-    elif big_case:
+    elif big_case and a_c09 is None:
         st.count('scale:python-monitor-only(model-not-asked)')
     elif a_c09 is None or 'error' in a_c09:
         st.count('driver_unavailable')
-    elif 'cycle_without_fail_deliveries' in detail:
-        # a cycle that exists only through what a FAILED calc task delivered: the closure graph of the Lean monitor
-        # (`edgesAt`: executed / up-to-date deliveries) does not have that edge -- Python monitor only, counted
-        st.count('cycle-through-fail-delivery:python-monitor-only')
-        a_c09 = None
     else:
         lean = a_c09.get('monitor') or {}
         st.count('closure:cyclic' if a_c09.get('cycle') else 'closure:acyclic')
+        if 'cycle_without_fail_deliveries' in detail:
+            # a cycle that exists only through what a FAILED-after-start calc task delivered: since wave 5 the closure
+            # graph of the Lean monitor (`edgesAt`, `resAt`) has that edge too -- the Lean monitor judges, the Python one
+            # cross-checks (the cycle lists are compared below); `cycleGood` is the graph of the earlier rounds
+            st.count('cycle-through-fail-delivery:lean-monitor')
+            if not detail['cycle_without_fail_deliveries']:
+                st.count('cycle-through-fail-delivery:ONLY-through-it')
         if a_c09.get('cutShort'):
             st.count('run:cut_short_by_failure')
-        m = a_c09.get('model') or {}
-        st.count('model_default_schedule:halt=%s' % m.get('halt'))
+        if big_case:
+            st.count('scale:lean-monitor(acceptor-not-asked)')
+        else:
+            m = a_c09.get('model') or {}
+            st.count('model_default_schedule:halt=%s' % m.get('halt'))
     failed = [k for k in KEYS if not py.get(k, True) or (lean is not None and not lean.get(k, True))]
     used = 0
     if failed:
@@ -1298,7 +1387,7 @@ def judge(case, obs, a_run, a_c09, st, shrink_left):
         bad2 = [k for k in KEYS if not p2.get(k, True)]
         if bad2:
             l2 = None
-            if not has_raise(small) and not has_delayed(small) and small.get('model', {}).get('n', 0) <= LEAN_MAX_N:
+            if not has_raise(small) and not has_delayed(small) and small.get('model', {}).get('n', 0) <= LEAN_MON_MAX_N:
                 try:
                     a2 = common.drv_batch([c09_request(small, o2)])[0]
                     l2 = a2.get('monitor')
@@ -1316,6 +1405,9 @@ def judge(case, obs, a_run, a_c09, st, shrink_left):
         disagree = [k for k in KEYS if py.get(k, True) != lean.get(k, True)]
         if sorted(a_c09.get('cycle') or []) != detail['cycle']:
             disagree.append('cycle(lean=%s,python=%s)' % (a_c09.get('cycle'), detail['cycle']))
+        if 'cycle_without_fail_deliveries' in detail and \
+                sorted(a_c09.get('cycleGood') or []) != detail['cycle_without_fail_deliveries']:
+            disagree.append('cycleGood(lean=%s,python=%s)' % (a_c09.get('cycleGood'), detail['cycle_without_fail_deliveries']))
         if disagree:
             st.divergence(witness_of(case, obs, disagree, py, lean, detail),
                           'python and Lean C09 monitors disagree on %s' % disagree)
@@ -1415,6 +1507,10 @@ def count_c09(st, case, obs):
             st.count('calc_first:%s' % t['outcome'])
         if t.get('n_actions'):
             st.count('multi_action_task')
+    if case.get('otf'):
+        st.count('own-target-filedep:%s:%s' % (case['otf'], case['runner']))
+    if case.get('fdc'):
+        st.count('fail-delivery-cycle:%s:%s:%s' % (case['fdc'], case['runner'], 'continue' if case.get('cont') else 'stop'))
     if m.get('calcResFail') and any(m['calcResFail']):
         st.count('case_with_calcResFail')
         frun = set(e[1] for e in obs['trace'] if e[0] == 'failure') & set(e[1] for e in obs['trace'] if e[0] == 'start')
@@ -1480,11 +1576,21 @@ def eval_batch(batch):
         pairs.append((c, o))
     plain = [(c, o) for c, o in pairs if not has_raise(c) and not has_delayed(c) and c['model']['n'] <= LEAN_MAX_N]
     a_run = runlib.ask_model(plain)
+    # the monitor alone also judges the larger cases (no acceptor, no default-schedule simulation of the model there)
+    mon = plain + [(c, o) for c, o in pairs if not has_raise(c) and not has_delayed(c)
+                   and LEAN_MAX_N < c['model']['n'] <= LEAN_MON_MAX_N]
+
+    def mon_request(c, o):
+        r = c09_request(c, o)
+        if c['model']['n'] > LEAN_MAX_N:
+            r['noSimulate'] = True
+        return r
     try:
-        a_c09 = common.drv_batch([c09_request(c, o) for c, o in plain]) if plain else []
+        a_c09 = common.drv_batch([mon_request(c, o) for c, o in mon]) if mon else []
     except Exception as ex:  # noqa
-        a_c09 = [{'error': str(ex)[:200]} for _ in plain]
-    answers = {id(c): (r, p) for (c, _), r, p in zip(plain, a_run, a_c09)}
+        a_c09 = [{'error': str(ex)[:200]} for _ in mon]
+    answers = {id(c): (None, p) for (c, _), p in zip(mon, a_c09)}
+    answers.update({id(c): (r, p) for (c, _), r, p in zip(plain, a_run, a_c09)})
     shrink_left = batch.get('shrink_s', 15.0)
     for c, o in pairs:
         st.case({'case': runlib.render(c).split('\n'), 'schedule': o.get('schedule')}, runlib.nontrivial(c))
@@ -1569,14 +1675,18 @@ def run(ctx, scale=1.0):
     for b in batches + pbatches:
         b['deadline'] = deadline
         b['stop'] = stop
+    _t0 = time.time()
     for st in common.pmap(eval_batch, batches):
         st.merge_into(ctx)
+    ctx.extra['wall_inproc_s'] = round(time.time() - _t0, 1)
+    _t0 = time.time()
     # process-mode runs fork real worker processes: not possible inside the (daemonic) pool workers
     if ctx.violations:
         ctx.count('process_batches_skipped_after_violation', len(pbatches))
     else:
         for st in runlib.fork_map(eval_batch, pbatches, procs=4):
             st.merge_into(ctx)
+    ctx.extra['wall_process_mode_s'] = round(time.time() - _t0, 1)
     done = sum(v for k, v in ctx.dist.items() if k in ('family:digraph', 'family:digraph-metachar-names'))
     ctx.extra['exhaustive_small_scope']['cases_run'] = done
     ctx.extra['exhaustive_small_scope']['not_run_budget_exhausted'] = ctx.dist.get('not_run_budget_exhausted', 0)
